@@ -49,3 +49,19 @@ Theorem C13_text_dict : forall O s j, o_json_loads O true s = JOk j ->
   parse_reg_cred_json O (inl s) = parse_reg_cred_json O (inr j).
 Proof. intros O s j H. split; [apply parse_auth_text_dict|apply parse_reg_text_dict]; exact H. Qed.
 Print Assumptions C13_text_dict.
+
+(* client data JSON: exactly the object's type, decoded challenge and origin; every other member ignored *)
+From PW Require Import Model.ClientData.
+Theorem C13_client_data : forall O raw m t c ch o,
+  o_json_loads O false raw = JOk (JObj m) ->
+  jget m k_type = Some t -> jget m k_challenge = Some (JStr c) -> b64url_dec c = Ok ch -> jget m k_origin = Some o ->
+  match jget m (s2l "tokenBinding") with Some (JObj _) => False | _ => True end ->
+  parse_client_data O raw = Ok {| cd_type := t; cd_challenge := ch; cd_origin := o; cd_token_binding := None |}.
+Proof. exact parse_client_data_exact. Qed.
+Print Assumptions C13_client_data.
+Theorem C13_client_data_missing_member : forall O raw m,
+  o_json_loads O false raw = JOk (JObj m) ->
+  jget m k_type = None \/ jget m k_challenge = None \/ jget m k_origin = None ->
+  parse_client_data O raw = Err (Lib InvalidJSONStructure).
+Proof. exact parse_client_data_missing_member. Qed.
+Print Assumptions C13_client_data_missing_member.
